@@ -826,6 +826,11 @@ function runQuery(env, q) {
       const ctx = new RTMOD.SchemaPrintingContext(ctxOpts);
       const returned = [];
       for (const name of q.calls) {
+        if (name === "#export") {
+          // the definitions read out between two prints (and thrown away): later prints still have to show up in later exports
+          try { ctx.exportDefinitions(); returned.push({ exportCall: true }); } catch (e) { returned.push({ exportCall: true, threw: thrown(e) }); }
+          continue;
+        }
         try {
           returned.push({ r: JSON.parse(JSON.stringify(env.parsers[name].schemaWithContext(ctx))) });
         } catch (e) {
